@@ -1,7 +1,7 @@
 //! C15: Hierarchy lookup — correspondence cases for QV/Hierarchy/Model.v, the lookup-specification
 //! oracle on the implementation, and the query-level ambiguity oracle.
 use crate::common::*;
-use qrlew::{hierarchy::Hierarchy, sql::parse, relation::{Relation, Variant as _}, DataType, Ready as _};
+use qrlew::{hierarchy::Hierarchy, sql::parse, relation::{Relation, Variant as _}, DataType, Ready as _, data_type::DataTyped as _};
 use qrlew::relation::Schema;
 use qrlew::sql::relation::QueryWithRelations;
 use serde_json::json;
@@ -229,6 +229,36 @@ pub fn run(outdir: &str, seed: u64, thorough: bool) -> serde_json::Value {
                 if want.is_some() { st.violation(json!({"kind":"table-reference-not-resolved","query":query,"tables":tables,"reference":reference,"cte":cte,"specified":want,"error":"panic"})); } }
         }
         if ti < 1 { st.sample(json!({"stream":"table-reference","query":query,"tables":tables,"specified":want})); }
+    }
+
+    // two tables with the same name in two schemas, joined without aliases: every fully qualified column is the column
+    // of its own table, and the shared unqualified name is refused
+    {
+        let mk = |sc: &str, lo: i64| -> (Vec<String>, Arc<Relation>) {
+            let schema: Schema = vec![("k".to_string(), DataType::integer_interval(lo, lo + 10)), ("a".to_string(), DataType::integer_interval(lo, lo + 10)), (format!("only_{}", sc), DataType::integer_interval(lo, lo + 10))].into_iter().collect();
+            (vec![sc.to_string(), "t".to_string()], Arc::new(Relation::table().name(format!("{}_t", sc)).schema(schema).size(10).build())) };
+        let rels: Hierarchy<Arc<Relation>> = vec![mk("s1", 0), mk("s2", 50)].into_iter().collect();
+        let typed = [("SELECT s1.t.a AS x, s2.t.a AS y FROM s1.t JOIN s2.t ON s1.t.k = s2.t.k", "int[0 10]", "int[50 60]"),
+            ("SELECT s2.t.a AS x, s1.t.a AS y FROM s1.t JOIN s2.t ON s1.t.k = s2.t.k", "int[50 60]", "int[0 10]"),
+            ("SELECT s1.t.a AS x, s2.t.a AS y FROM s2.t JOIN s1.t ON s1.t.k = s2.t.k", "int[0 10]", "int[50 60]"),
+            ("SELECT s1.t.a AS x, s2.t.a AS y FROM s1.t LEFT JOIN s2.t ON s1.t.a < s2.t.a", "int[0 10]", "option(int[50 60])"),
+            ("SELECT only_s1 AS x, only_s2 AS y FROM s1.t JOIN s2.t ON s1.t.a < s2.t.a", "int[0 10]", "int[50 60]"),
+            ("SELECT u.a AS x, s2.t.a AS y FROM s1.t AS u JOIN s2.t ON u.a < s2.t.a", "int[0 10]", "int[50 60]"),
+            ("SELECT s2.t.a AS x, s2.t.k AS y FROM s2.t", "int[50 60]", "int[50 60]")];
+        for (q, tx, ty) in typed.iter() {
+            let res = catch_unwind(AssertUnwindSafe(|| { let p = parse(q).map_err(|e| e.to_string())?; Relation::try_from(QueryWithRelations::new(&p, &rels)).map(|rel| rel.schema().iter().map(|f| f.data_type().to_string()).collect::<Vec<String>>()).map_err(|e| e.to_string()) }));
+            st.evaluations += 1; st.distinct.insert(hash_str(q)); st.bump("same_name_tables_queries");
+            match res {
+                Ok(Ok(ts)) => if ts != vec![tx.to_string(), ty.to_string()] { st.violation(json!({"kind":"qualified-column-bound-to-another-table","query":q,"column_types":ts,"specified":[tx, ty]})); },
+                Ok(Err(e)) => st.violation(json!({"kind":"qualified-column-not-resolved","query":q,"error":e.chars().take(160).collect::<String>()})),
+                Err(_) => st.violation(json!({"kind":"qualified-column-not-resolved","query":q,"error":"panic"})),
+            }
+        }
+        for q in ["SELECT a FROM s1.t JOIN s2.t ON s1.t.k = s2.t.k", "SELECT k AS z FROM s1.t JOIN s2.t ON s1.t.a < s2.t.a", "SELECT t.a AS z FROM s1.t JOIN s2.t ON s1.t.a < s2.t.a"] {
+            let res = catch_unwind(AssertUnwindSafe(|| { let p = parse(q).map_err(|e| e.to_string())?; Relation::try_from(QueryWithRelations::new(&p, &rels)).map(|rel| rel.schema().to_string()).map_err(|e| e.to_string()) }));
+            st.evaluations += 1; st.distinct.insert(hash_str(q)); st.bump("same_name_tables_queries");
+            if let Ok(Ok(schema)) = res { st.violation(json!({"kind":"ambiguous-column-bound","class":"same-table-name-in-two-schemas","query":q,"schema":schema})); }
+        }
     }
 
     let header = "From QV Require Import Hierarchy.Model Corr.Lib Corr.C15.";
